@@ -55,6 +55,10 @@ def bystander():
     return hw
 
 
+# wall-clock budget of ONE explored graph, seconds (the largest graph of the unchanged tree takes about 100 s in the thorough tier)
+SHARD_BUDGET_S = float(os.environ.get('VERIF_GRAPH_BUDGET_S', '900'))      # the runner sets 120 (quick) / 1500 (thorough)
+
+
 class InterferenceError(Exception):
     """the bystander system, which nobody but this harness touches, did not behave like a register"""
 
@@ -346,7 +350,15 @@ class Explorer:
         frontier = collections.deque([(init, k0, 0)])
         self.states = 1
         order = [k0]
+        import time
+        t_end = time.time() + SHARD_BUDGET_S
         while frontier:
+            if self.states % 512 == 0 and time.time() > t_end:
+                # wall-clock budget of one graph (a changed implementation with a hidden counter can make a graph that closes in
+                # seconds practically infinite): stop, report what was found so far, evidence says capped
+                self.capped = True
+                self.budget_exhausted = True
+                break
             (snap, ex), k, depth = frontier.popleft()
             self.depth = max(self.depth, depth)
             if self.max_depth is not None and depth >= self.max_depth:
